@@ -11,6 +11,7 @@
        sorted in document order, duplicate-free, and unions obey the set laws. *)
 From Coq Require Import List NArith Bool Lia Sorting.Sorted Sorting.Permutation.
 From XmlRs Require Import Base.CPred Base.NList Base.Float64.
+From XmlRs Require Import Spec.XPathCore Model.XPathFuncs.
 From XmlRs Require Import Model.XPathAst Model.XDoc Model.XPathScalar Model.XPathEval.
 From XmlRs Require Import Proofs.XPathEvalEqs Proofs.XPathNav Proofs.XPathSort Proofs.XPathAstPred
   Proofs.XPathInv Proofs.XPathCtx.
@@ -124,11 +125,15 @@ Proof.
     apply lift_ok_inv in H2. destruct H2 as [H2 _]. eapply Ht; [|exact H3]. eapply arith_canon; exact H2.
   - intros inv_ u Hu n c v c' H. rewrite eval_unary_expr_eq in H.
     apply bindM_ok_inv in H. destruct H as [v1 [c1 [H1 H2]]].
-    destruct (N.even inv_).
-    + apply ret_ok_inv in H2. destruct H2; subst. eapply Hu; exact H1.
-    + apply lift_ok_inv in H2. destruct H2 as [H2 _]. unfold neg_value in H2.
-      destruct (unwrap_num (val_to_number doc v1)); cbn [bind] in H2; try discriminate.
-      inversion H2. exact I.
+    apply lift_ok_inv in H2. destruct H2 as [H2 _].
+    destruct (N.to_nat inv_) as [|k]; cbn [neg_times] in H2.
+    + inversion H2; subst. eapply Hu; exact H1.
+    + assert (Hnum : forall k a v', canon a -> neg_times doc k a = Ok v' -> canon v').
+      { clear. induction k as [|k IH]; intros a v' Ha E; cbn [neg_times] in E; [inversion E; subst; exact Ha|].
+        unfold neg_value in E at 1. destruct (unwrap_num (val_to_number doc a)); cbn [bind] in E; try discriminate.
+        eapply IH; [|exact E]. exact I. }
+      unfold neg_value in H2 at 1. destruct (unwrap_num (val_to_number doc v1)); cbn [bind] in H2; try discriminate.
+      eapply Hnum; [|exact H2]. exact I.
   - intros l [_ Hl] n c v c' H. eapply Hl; exact H.
   - split.
     + intros acc n c v c' H. rewrite eval_union_rest_nil in H. apply ret_ok_inv in H. destruct H; subst.
@@ -194,6 +199,7 @@ Proof.
   pose proof (eval_inv_all doc Hwf (good doc) good_valid good_children good_parent good_root
                 not_ns_axis any_str any_str False good_axis) as Hall.
   destruct Hall as [Hor _].
+  - intros F; destruct F.
   - intros F; destruct F.
   - intros F; destruct F.
   - specialize (Hor e Hok n Gn c). unfold eval_expr in H. rewrite H in Hor. exact Hor.
